@@ -13,7 +13,8 @@ LEVEL = "fault_enumeration"
 ENGINE = "E3 stack"
 TECHNIQUE = ("deterministic simulation with fault enumeration: the real ControllerApplication (started through connect()/start_network()) feeds its watchdog "
              "against the reference NCP, which answers each keep-alive {normally, never -> real 10 s command timeout in virtual time, invalidCommand}; every "
-             "outcome sequence up to a length bound is enumerated, long seeded sequences cross the read-and-clear period, and zigpy's real watchdog loop is run in virtual time")
+             "outcome sequence up to a length bound is enumerated, long seeded sequences cross the read-and-clear period, and zigpy's real watchdog loop is run in virtual time"
+             ' The whole-stack soak (dst/soak.py: one ControllerApplication object through several connect/traffic/failure/reconnect epochs) is a further seeded scenario of this check.')
 LEVEL_TEXT = ("all 3^k keep-alive outcome sequences (success / no reply / invalidCommand) up to length k (9 in thorough, 7 in quick) on a v4 and a v8 NCP are fed "
               "to watchdog_feed() and compared feed by feed with a reference counter; seeded sequences of length 400 cross the 180-feed read-and-clear "
               "boundary twice, with failures also on the feed's second command; the real _watchdog_loop is driven through outcome scripts in virtual time")
@@ -40,6 +41,10 @@ def plan(tier):
     for V in (4, 8):
         for pre in itertools.product(ALPHA, repeat=2):
             sweeps.append(("enum", {"V": V, "prefix": "".join(pre), "k": k, "sched": False}))
+    for V in (4, 8):
+        for pre in itertools.product("STX", repeat=2):
+            if "X" in pre:
+                sweeps.append(("enum", {"V": V, "prefix": "".join(pre), "k": k, "alpha": "STX", "sched": False}))
     kb = 5 if tier == "quick" else 7
     for seq in itertools.product("STEV", repeat=kb):
         if seq[0] != "S":  # sequences starting with S are covered by a shorter one shifted by a feed
@@ -52,8 +57,8 @@ def plan(tier):
     return {
         "sweeps": sweeps,
         "exhaustive": f"all outcome sequences over {{success, no reply, invalidCommand, success with free-buffer read refused}} of length <= {k} for a v4 and a v8 NCP through watchdog_feed(); scripted runs of the real watchdog loop on v4/5/8/13/14",
-        "random": [("long", {}, 1), ("loop", {}, 1)],
-        "runs": 120 if tier == "quick" else None,
+        "random": [("long", {}, 1), ("loop", {}, 1), ("soak", {}, 2)],
+        "runs": 240 if tier == "quick" else None,
         "budget_s": 60 if tier == "quick" else 900,
         "batch": 4,
         "sweep_batch": 1,
@@ -61,6 +66,12 @@ def plan(tier):
 
 
 def run(scenario, params, tape, detail=False):
+    if scenario == "soak":
+        # the whole-stack soak (dst/soak.py): one application object through several connection epochs with traffic, failures and
+        # reconnects; this check reports the clauses of its own property from it
+        from .. import soak
+
+        return soak.run(params, tape, detail=detail)
     V = params["V"] if "V" in params else (4, 5, 7, 8, 9, 12, 13, 14)[tape.draw(8, "V")]
     rig = e3app.AppRig(tape, version=V, sched=params.get("sched", True))
     loop, ncp = rig.loop, rig.ncp
@@ -104,7 +115,7 @@ def run(scenario, params, tape, detail=False):
         else:
             ref["count"] += 1
             cmd = "readAndClearCounters" if ref["count"] % PERIOD == 0 else "readCounters"
-        if outcome in ("S", "V") or (V == 4 and outcome in ("T2", "E2")):
+        if outcome in ("S", "V") or (V == 4 and outcome in ("T2", "E2")):  # ("X": EZSP stopped -> EzspError -> a failure, below)
             ref["fails"] = 0
             return cmd, False
         ref["fails"] += 1
@@ -116,10 +127,16 @@ def run(scenario, params, tape, detail=False):
         probe("feed." + outcome)
         cmd, expect_raise = ref_feed(outcome)
         raised = None
+        if outcome == "X":
+            # the EZSP layer was stopped and not restarted (what stop_ezsp() leaves behind when an NCP reset never completes):
+            # every command raises EzspError('EZSP is not running') - a keep-alive failure like any other
+            app._ezsp.stop_ezsp()
         try:
             await app.watchdog_feed()
         except Exception as e:
             raised = e
+        if outcome == "X":
+            app._ezsp.start_ezsp()
         if (raised is not None) != expect_raise:
             key = "raised-early" if raised is not None else "not-raised"
             viol.append(("C19.exact", key, f"v{V} {label}: feed with outcome {outcome} after {ref['fails'] - (0 if outcome == 'S' else 1)} consecutive failure(s) "
@@ -131,7 +148,12 @@ def run(scenario, params, tape, detail=False):
         if outcome == "S" and ref["fails"] == 0 and raised is None:
             pass
         first = cur["cmds"][0] if cur["cmds"] else None
-        if first != cmd:
+        if outcome == "X":
+            # which commands still reach the NCP while the EZSP layer is stopped is not C19's subject (on v5+ the counter read goes through the
+            # protocol handler and bypasses the running gate; the feed then fails on the free-buffer read) - counted as a probe only
+            if cur["cmds"]:
+                probe("keepalive_sent_while_stopped")
+        elif first != cmd:
             viol.append(("C19.cmd", "keepalive", f"v{V} {label}: feed #{ref['count'] if V != 4 else '?'} used {first} as keep-alive, expected {cmd}"))
         if cmd == "readAndClearCounters":
             probe("read_and_clear_used")
@@ -147,7 +169,7 @@ def run(scenario, params, tape, detail=False):
         if scenario == "enum":
             k, prefix = params["k"], params["prefix"]
             for n in range(len(prefix), k + 1):
-                for rest in itertools.product(ALPHA, repeat=n - len(prefix)):
+                for rest in itertools.product(params.get("alpha", ALPHA), repeat=n - len(prefix)):
                     seq = prefix + "".join(rest)
                     nseq[0] += 1
                     before4 = False
@@ -179,7 +201,7 @@ def run(scenario, params, tape, detail=False):
             seq = []
             run_len = 0
             for i in range(n):
-                o = ("S", "S", "V", "T", "E", "T2", "E2", "T")[tape.draw(8, "o")]
+                o = ("S", "S", "V", "T", "E", "T2", "E2", "T", "X")[tape.draw(9, "o")]
                 seq.append(o)
             nseq[0] += 1
             for i, o in enumerate(seq):
